@@ -273,8 +273,9 @@ class History:
     """One history: recorded on the real store session by session, replayed on the model in lock
     step, probed at crash points."""
 
-    def __init__(self, exe, mx, optname, opts, ops, tag, tier, rng):
+    def __init__(self, exe, mx, optname, opts, ops, tag, tier, rng, forced_faults=None):
         self.exe, self.mx, self.optname, self.opts, self.ops, self.tag, self.tier, self.rng = exe, mx, optname, opts, ops, tag, tier, rng
+        self.forced_faults = forced_faults or []
         base = "/dev/shm" if os.path.isdir("/dev/shm") else os.path.join(vlib.WORK, "C02")
         self.dir = os.path.join(base, "blue_c02_%s_%d" % (tag, os.getpid()))
         shutil.rmtree(self.dir, ignore_errors=True)
@@ -389,7 +390,8 @@ class History:
         self.stats["trace_calls_compared"] += len(real)
         if not ok:
             self.problem("corr", "system-call sequence differs from the model's at call %d of %s" % (i, where),
-                         real=[" ".join([c[0]] + list(c[1])) + (" FAILED" if c[2] else "") for c in real][:40], model=model_calls[:40])
+                         real=[" ".join([c[0]] + list(c[1])) + (" FAILED" if c[2] else "") for c in real][max(0, i - 4):i + 8],
+                         model=model_calls[max(0, j - 4):j + 8], real_len=len(real), model_len=len(mc))
         return ok
 
     # ------------------------------------------------------------ probes
@@ -696,7 +698,7 @@ class History:
                     order = sorted(range(len(ids)), key=lambda i: ids[i])
                     # outputs in the order the multi-builder cut them: ascending first key
                     outs.sort(key=lambda nm: self.cache[nm][0][0][0] if self.cache[nm][0] else b"")
-                    m = self.model.cmd("PEND C %s | %s" % (",".join(str(ids[i]) for i in order),
+                    m = self.model.cmd("PEND C %s %s | %s" % ("gc" if int(t[2]) == 15 else "merge", ",".join(str(ids[i]) for i in order),
                                                           " ; ".join(",".join(ent_str(e) for e in self.cache[nm][0]) for nm in outs)))
                     kept, prefix = self.canon_events(oe)
                     self.compare_trace(kept, [c for c in m[6:].split(" ; ") if c], "compaction (session %d op %d)" % (si, n))
@@ -732,6 +734,13 @@ class History:
 
     # ------------------------------------------------------------ faults
     def fault_runs(self, plan):
+        for ff in self.forced_faults:
+            for si, opn, ev in plan:
+                if si == ff["session"] and ev.sys == ff["sys"] and ev.p1 == ff["path"] and ev.pk == ff["nth"]:
+                    self.fault_one(si, opn, ev, ff.get("errno", "EIO"))
+                    break
+            else:
+                self.problem("corr", "corpus fault not found in the recorded calls", fault=ff)
         if not plan:
             return
         n = 2 if self.tier == "quick" else min(len(plan), 40)
@@ -833,8 +842,8 @@ class Summary:
 
 
 def _job(args):
-    exe, mx, optname, opts, ops, tag, tier, seed = args
-    h = History(exe, mx, optname, opts, ops, tag, tier, vlib.Rng(seed))
+    exe, mx, optname, opts, ops, tag, tier, seed, forced = args
+    h = History(exe, mx, optname, opts, ops, tag, tier, vlib.Rng(seed), forced)
     h.run()
     return Summary(h)
 
@@ -882,12 +891,12 @@ def run(chk):
                 c = json.load(open(os.path.join(corpus_dir, fn)))
                 optname = c.get("options", "small-files")
                 ops = ops_from_json(c["history"])
-                jobs.append((exe, mx, optname, dict(OPTION_SETS)[optname], ops, "c%d" % len(jobs), "thorough", chk.seed * 7919 + len(jobs)))
+                jobs.append((exe, mx, optname, dict(OPTION_SETS)[optname], ops, "c%d" % len(jobs), c.get("tier", "quick"), chk.seed * 7919 + len(jobs), c.get("faults")))
                 names.append(("corpus_" + fn[:-5], optname, ops))
     for i in range(n_hist):
         optname, opts = OPTION_SETS[i % len(OPTION_SETS)]
         ops = gen_history(rng.fork(), rng.choice([12, 20, 30, 90, 180] if chk.tier == "quick" else [16, 30, 45, 120, 300]))
-        jobs.append((exe, mx, optname, opts, ops, "h%d" % i, chk.tier, rng.u64()))
+        jobs.append((exe, mx, optname, opts, ops, "h%d" % i, chk.tier, rng.u64(), None))
         names.append(("h%d" % i, optname, ops))
     with multiprocessing.Pool(min(len(jobs), max(2, vlib.NCPU - 2))) as pool:
         results = pool.map(_job, jobs, chunksize=1)
